@@ -1,0 +1,42 @@
+//go:build verif
+
+package generator
+
+import (
+	"sort"
+	"sync"
+)
+
+var (
+	verifMu        sync.Mutex
+	verifTemplates = map[string]int{}
+)
+
+// verifRecordTemplate records which named templates were executed (verification builds only).
+func verifRecordTemplate(name string) {
+	verifMu.Lock()
+	verifTemplates[name]++
+	verifMu.Unlock()
+}
+
+// VerifTemplatesExecuted returns the names of the templates executed so far, sorted.
+func VerifTemplatesExecuted() []string {
+	verifMu.Lock()
+	defer verifMu.Unlock()
+	out := make([]string, 0, len(verifTemplates))
+	for k := range verifTemplates {
+		out = append(out, k)
+	}
+	sort.Strings(out)
+	return out
+}
+
+// VerifTemplateNames returns the names of all defined templates, sorted.
+func VerifTemplateNames() []string {
+	var out []string
+	for _, t := range templates.Templates() {
+		out = append(out, t.Name())
+	}
+	sort.Strings(out)
+	return out
+}
